@@ -48,18 +48,7 @@ Definition sig_verifies (doc : tree) (nm : N) (ps : path) (cert : N) : bool :=
   | _ => false
   end.
 
-(* every element carrying an ID, whatever its name, with its absolute path, in document order *)
-Fixpoint all_ids (t : tree) (here : path) : list (str * path) :=
-  match t with
-  | Sg _ _ _ => []
-  | El _ i _ kids =>
-      (match i with Some v => [(v, here)] | None => [] end) ++
-      (fix go (l : list tree) (k : nat) : list (str * path) :=
-         match l with
-         | [] => []
-         | c :: r => all_ids c (here ++ [k]) ++ go r (S k)
-         end) kids O
-  end.
+(* all_ids (every element carrying an ID, whatever its name): Model/Xmlsec.v *)
 
 (* sigver._enveloped_signature_ok(..., whole_document_ok=True) about the document
    element: the first ds:Signature in document order of the whole document is a
